@@ -35,8 +35,10 @@ MANIFEST = {
  }
 RULE = ("cases: random interleavings of 6-30 ops over save_all(v) / thread step / injected failure at the temp-file write "
         "(before anything is written, or after half of the YAML text) or at the rename / shutdown / crash (thread "
-        "abandoned at its current blocking point, incl. half-written temp file), followed by a wedge tail (fresh save + 10 "
-        "thread steps) and a shutdown tail (shutdown + 12 thread steps) where applicable; payloads are nested dicts "
+        "abandoned at its current blocking point, incl. half-written temp file); a save hands over new content, content saved "
+        "before (a retry) or a type variant of the last content (1 / True / 1.0: equal in Python, different on disk; all "
+        "comparisons with the disk are type-strict); followed by a wedge tail (fresh save + 10 "
+        "thread steps; after injected failures also once more with a retry of the SAME content) and a shutdown tail (shutdown + 12 thread steps) where applicable; payloads are nested dicts "
         "(str/int/float/bool/None/list) so a half-written file never equals a saved value; (b) machine-variable histories "
         "of 4-16 ops over configure(persist, expire_secs)/set(value incl. None)/remove/reboot at times chosen around the "
         "expiry instants (equal, +-1 s), every reboot going through a real YAML file. non-trivial = the thread completed "
@@ -237,9 +239,30 @@ def install():
     _installed = True
 
 
+VARIANT = 500   # id i + VARIANT = the value of id i with the YAML TYPE of some leaves changed (== in Python, different on disk)
+
+
 def payload(i):
+    if i >= VARIANT:
+        b = i - VARIANT
+        p = payload(b)
+        p["id"] = float(b)                       # 3 -> 3.0
+        p["flag"] = 1 if p["flag"] else 0         # True -> 1
+        p["scores"][0] = bool(b) if b in (0, 1) else float(b)
+        return p
     return {"id": i, "name": "value-%d" % i, "scores": [i, i * 2, {"k": "x" * (i % 7 + 1)}], "ratio": i / 4.0,
             "flag": i % 2 == 0, "nothing": None, "nested": {"a": {"b": [str(i)] * 3}}}
+
+
+def same(a, b):
+    """equal as YAML values: same types all the way down (True != 1 != 1.0)"""
+    if type(a) is not type(b):
+        return False
+    if isinstance(a, dict):
+        return a.keys() == b.keys() and all(same(a[k], b[k]) for k in a)
+    if isinstance(a, list):
+        return len(a) == len(b) and all(same(x, y) for x, y in zip(a, b))
+    return a == b
 
 
 class Rig:
@@ -322,14 +345,14 @@ class Rig:
         except Exception as e:
             return ("torn", "unparseable: " + repr(e)[:80] + " / " + text[:60])
         for i, p in self.values.items():
-            if p is not None and v == p:
+            if p is not None and same(v, p):
                 return ("value", i)
         return ("torn", "not a saved value: " + text[:80])
 
     def observe(self):
         d = self.disk()
         disk = "0" if d[0] == "absent" else str(d[1]) if d[0] == "value" else "torn"
-        data = [i for i, p in self.values.items() if p == self.dm.data or (p is None and self.dm.data == {})]
+        data = [i for i, p in self.values.items() if (p is not None and same(p, self.dm.data)) or (p is None and self.dm.data == {})]
         at = self.sched.at
         return "pc=%s disk=%s dirty=%d busy=%d data=%s" % (
             at, disk, 1 if self.dirty.ev.is_set() else 0, 1 if self.FileManager.is_busy else 0,
@@ -394,8 +417,14 @@ def gen_ops(r):
     for _ in range(r.randint(6, 30)):
         k = r.random()
         if k < 0.22:
-            n += 1
-            ops.append(["save", n])
+            x = r.random()
+            if n and x < 0.12:
+                ops.append(["save", r.randint(max(1, n - 2), n)])           # the same content again (e.g. a retry after a failed write)
+            elif n and x < 0.22:
+                ops.append(["save", n + VARIANT])                           # only the YAML type of some leaves changes
+            else:
+                n += 1
+                ops.append(["save", n])
         elif k < 0.24:
             ops.append(["shutdown"])
         elif k < 0.25 and faults:
@@ -408,7 +437,7 @@ def gen_ops(r):
     return ops
 
 
-def run_case(ops, model=None, initial_file=True, tails=True):
+def run_case(ops, model=None, initial_file=True, tails=True, tail_same=False):
     """plays the ops on the real thread; returns dict(obs=[...], verdicts=[(signature, detail)], cmp=[(op, impl, model)])"""
     rig = Rig(initial_file)
     out = {"obs": [], "verdicts": [], "cmp": [], "writes": 0, "faults": 0, "played": []}
@@ -463,14 +492,16 @@ def run_case(ops, model=None, initial_file=True, tails=True):
         if tails and not rig.over and rig.sched.at != "dead":
             if not stopped and rig.sched.at != "done":
                 wedge_tail = True
-                play(["save", next_id])
+                # tail_same: hand over the content saved last once more (a retry after a failed write) instead of new content
+                tid = last_saved if (tail_same and last_saved) else next_id
+                play(["save", tid])
                 for _ in range(10):
                     play(["step"])
                 d = rig.disk()
-                if d != ("value", next_id):
+                if d != ("value", tid):
                     out["verdicts"].append(("save-not-written-after-failure" if injected else "save-not-written",
-                                            {"saved": next_id, "disk": d, "thread_at": rig.sched.at,
-                                             "is_busy": rig.FileManager.is_busy}))
+                                            {"saved": tid, "same_content_again": tid != next_id, "disk": d,
+                                             "thread_at": rig.sched.at, "is_busy": rig.FileManager.is_busy}))
             play(["shutdown"])
             for _ in range(12):
                 play(["step"])
@@ -483,13 +514,13 @@ def run_case(ops, model=None, initial_file=True, tails=True):
                     out["verdicts"].append(("not-flushed-on-shutdown", {"last_saved": last_saved, "disk": d}))
                 elif not out.get("save_after_stop"):
                     back = reboot_data(rig)
-                    if back != (rig.values.get(last_saved) or {}):
+                    if not same(back, rig.values.get(last_saved) or {}):
                         out["verdicts"].append(("reboot-loads-different-data", {"last_saved": last_saved,
                                                                                 "loaded": repr(back)[:200]}))
         if rig.over:
             # after a crash the next boot must load the start-up content or one complete saved value
             back = reboot_data(rig)
-            if not any(back == (p or {}) for p in rig.values.values()):
+            if not any(same(back, p or {}) for p in rig.values.values()):
                 out["verdicts"].append(("reboot-after-crash-loads-torn-data", {"loaded": repr(back)[:200]}))
         return out
     finally:
@@ -514,6 +545,13 @@ def one_case(ctx, model, ops, initial_file=True, tag=None):
     for op, impl, mdl in out["cmp"]:
         if not ctx.compare(dict(case, what="after %r" % (op,)), impl, mdl):
             break
+    if out["faults"] and not out["verdicts"]:
+        # the same history once more, ending with a retry of the SAME content after the failure(s)
+        out2 = run_case(ops, None, initial_file, tail_same=True)
+        ctx.count("retry_same_content_tails")
+        if out2["verdicts"]:
+            sig, detail = out2["verdicts"][0]
+            ctx.fail(sig, dict(case, tail_same=True), detail)
 
 
 # ----------------------------------------------------------------------------------------------- machine variables
@@ -713,8 +751,9 @@ def replay(ctx, rep):
         for sig, detail in verdicts[:1]:
             ctx.fail(sig, case, detail)
         return
-    out = run_case(case.get("shrunk") or case["ops"], None, case.get("initial_file", True))
+    ts = bool(case.get("tail_same"))
+    out = run_case(case.get("shrunk") or case["ops"], None, case.get("initial_file", True), tail_same=ts)
     if not out["verdicts"]:
-        out = run_case(case["ops"], None, case.get("initial_file", True))
+        out = run_case(case["ops"], None, case.get("initial_file", True), tail_same=ts)
     for sig, detail in out["verdicts"][:1]:
         ctx.fail(sig, case, detail)
